@@ -40,7 +40,12 @@ Definition spec (k:rcase) (o:robs) : option (N * tape) :=
   let '(good, st) := scan_stream (server (k_cfg k)) (negotiated (k_cfg k)) (full_stream k) in
   (* wire sizes: the limit counts payload bytes as they are on the wire (deflated if compressed) *)
   let raw := expected_msgs good st in
-  let '(ms, over) := cut_at_limit l raw in
+  let '(ms0, over) := cut_at_limit l raw in
+  (* what the application reads of a compressed message within the limit is its inflated payload *)
+  match all_some (map (inflate_msg inflate) ms0) with
+  | None => Some (96, [])
+  | Some ms =>
+  let over_comp := over && match rev ms0 with m :: _ => e_comp m | [] => false end in
   match walk (k_sure k) (walk0 ms) (k_ops k) (o_res o) with
   | inr c =>
       (* once an over-limit message was started and abandoned nothing is claimed about what follows *)
@@ -51,7 +56,7 @@ Definition spec (k:rcase) (o:robs) : option (N * tape) :=
     else if over && k_drains k && negb (w_beyond s) then
       match w_sticky s with
       | Some (Some RReadLimit) =>
-          if l <? delivered_after_last_next 0 (combine (k_ops k) (o_res o)) then Some (31, [])   (* more than L bytes delivered *)
+          if negb over_comp && (l <? delivered_after_last_next 0 (combine (k_ops k) (o_res o))) then Some (31, [])   (* more than L bytes delivered (uncompressed: wire bytes = delivered bytes) *)
           else match decode_wraw k (o_wraw o) with
                | None => Some (90, [])
                | Some wb => if existsb is_close_1009 wb then None else Some (32, [])      (* no 1009 close *)
@@ -60,6 +65,7 @@ Definition spec (k:rcase) (o:robs) : option (N * tape) :=
       end
     else if k_drains k && existsb (must (k_sure k)) (w_todo s) then Some (17, [])
     else None
+  end
   end.
 
 Definition judge : tape -> tape := judge_reader inflate spec.
